@@ -291,9 +291,9 @@ def config_text(case, with_other=True):
         L += other_block(case)
     b = case["bias"]
     if b["type"] == "linear":
-        L += ["linear {", "  colvars v", "  centers 0.0", "  forceConstant %r" % b["k"], "}"]
+        L += ["linear {", "  name b", "  colvars v", "  centers 0.0", "  forceConstant %r" % b["k"], "}"]
     elif b["type"] == "harmonic":
-        L += ["harmonic {", "  colvars v", "  centers %r" % b["c"], "  forceConstant %r" % b["k"], "}"]
+        L += ["harmonic {", "  name b", "  colvars v", "  centers %r" % b["c"], "  forceConstant %r" % b["k"], "}"]
     return L
 
 
@@ -311,7 +311,11 @@ def scenario(case, k):
             L.append("pos %d %s %s %s" % (i + 1, hx(p[0]), hx(p[1]), hx(p[2])))
         L += ["step"] * late
     L += ["config EOF"] + config_text(case, with_other=not late) + ["EOF"] + (["hidej v"] if case["hide"] else []) + ["show tf 1 af 1 energy 0 bias 0"]
+    applying = True
     for s in case["steps"]:
+        if bool(s.get("off")) == applying:      # the bias stops / resumes applying its force (the variable stays active)
+            applying = not applying
+            L.append("script cv bias b set apply_force %d" % (1 if applying else 0))
         for i, p in enumerate(s["pos"]):
             L.append("pos %d %s %s %s" % (i + 1, hx(p[0]), hx(p[1]), hx(p[2])))
         ef = s["ef"]
@@ -456,7 +460,7 @@ def model_line(case, isteps):
     for t, s in enumerate(case["steps"]):
         p.append(vl(s["pos"]))
         p.append(vl(step_eforce(case, isteps, t)))
-        p.append(hx(bias_force(case, isteps[t]["cv"].get("v", float("nan")))))
+        p.append(hx(0.0 if s.get("off") else bias_force(case, isteps[t]["cv"].get("v", float("nan")))))
         for ci in rot_indices(case):
             p.append(" ".join(hx(x) for x in isteps[t].get("rot", {}).get(ci, [1.0, 0.0, 0.0, 0.0, 0.0])))
     return " ".join(p)
@@ -580,7 +584,7 @@ def inverse_ok(case):
 
 
 def gen_case(r, idx, typ=None, kinds=None):
-    typ = typ or r.choice(["INV", "INV", "LIN", "LOC", "TIM", "RND"])
+    typ = typ or r.choice(["INV", "INV", "LIN", "LOC", "TIM", "RND", "OFF"])
     ncomp = 1 if r.random() < 0.7 else 2
     kinds = kinds or [r.choice(KINDS) for _ in range(ncomp)]
     overlap = typ == "RND" and r.random() < 0.3
@@ -666,6 +670,16 @@ def gen_case(r, idx, typ=None, kinds=None):
         E = [field() for _ in range(4)]
         steps = [{"pos": P[0], "ef": E[0]}, {"pos": P[1], "ef": E[1]}, {"pos": P[0], "ef": E[0]},
                  {"pos": P[2], "ef": E[2]}, {"pos": P[3], "ef": E[3]}]
+    elif typ == "OFF":
+        # the bias applies its force at some steps only (apply_force switched off and on again while the variable stays
+        # active and measured): the applied force is zero between non-zero ones
+        case["hide"] = False
+        if case["bias"]["type"] == "none":
+            case["bias"] = {"type": "linear", "k": 2.0}
+        if not case["same"]:
+            case["inc"] = 1
+        pat = r.choice([[0, 1, 0, 0, 1, 1, 0], [0, 0, 1, 0, 1, 0], [1, 0, 0, 1, 1, 0]])
+        steps = [{"pos": P[i % 4], "ef": (zero if r.random() < 0.5 else field()), "off": bool(o)} for i, o in enumerate(pat)]
     else:
         steps = [{"pos": P[i % 4], "ef": field() if r.random() < 0.7 else zero} for i in range(r.randint(2, 5))]
     case["steps"] = steps
@@ -939,7 +953,7 @@ def process(run, runner, cases, sample=0):
             run.mismatch("config:%s" % kd, {"case": c}, [cs["config"]] + [s["err"] for s in cs["steps"]], "accepted, all steps ok")
             continue
         isteps = cs["steps"]
-        nontriv = c.get("invok", False) and any(delivered_is_own(c, t) is not None for t in range(len(isteps))) or c["type"] in ("LIN", "LOC", "TIM", "ZERO", "ROT")
+        nontriv = c.get("invok", False) and any(delivered_is_own(c, t) is not None for t in range(len(isteps))) or c["type"] in ("LIN", "LOC", "TIM", "ZERO", "ROT", "OFF")
         run.count(json.dumps(c, sort_keys=True), bool(nontriv) and any(s["tf"].get("v") not in (None, 0.0) for s in isteps))
         for sig, text in oracle(c, isteps):
             run.violation(sig, text, rp)
@@ -1060,6 +1074,13 @@ def check(run):
             while c is None or not c["comps"][0].get("onesite") or c["same"] != same:
                 c = gen_case(r, 0, "LOC", [kind])
             first.append(c)
+    for kind in ("distance", "angle", "gyration"):        # applied force zero between non-zero ones, subtract on and off
+        for sub in (True, False):
+            c = None
+            while c is None or c["same"]:
+                c = gen_case(r, 0, "OFF", [kind])
+            c["sub"] = sub
+            first.append(c)
     for i in range(24 if quick else 1200):          # rotated frames
         first.append(rot_case(r, "rmsd" if i % 2 == 0 else "eigenvector"))
     n = 300 if quick else 12000
@@ -1078,7 +1099,8 @@ def check(run):
         for b0 in range(0, len(group), B):
             process(run, runner, group[b0:b0 + B], sample=0 if shown else 3)
             shown = True
-    tw = [c for c in cases if c["type"] in ("ZERO", "INV", "TIM", "RND") and not any(cc["kind"] == "eigenvector" for cc in c["comps"])]
+    tw = [c for c in cases if c["type"] in ("OFF", "ZERO", "INV", "TIM", "RND") and not any(cc["kind"] == "eigenvector" for cc in c["comps"])]
+    tw.sort(key=lambda c: 0 if c["type"] in ("OFF", "ZERO") else 1)
     tw = tw[:120 if quick else 3000]
     for b0 in range(0, len(tw), B):
         process_twins(run, runner, tw[b0:b0 + B])
